@@ -70,9 +70,9 @@ func pick[T any](b *builder, xs []T, label string) T { return Pick(b.t, xs, labe
 
 var (
 	pkgPool   = []string{"", "a", "a.b", "a.b.c", "a.c", "b", "b.a", "a.bc.d", "a.bc", "bc"}
-	msgPool   = []string{"A", "B", "C", "D", "M", "N", "S", "E"}
+	msgPool   = []string{"A", "B", "C", "D", "M", "N", "S", "E", "MyField", "Myfield"}
 	enumPool  = []string{"E", "F", "G"}
-	fieldPool = []string{"x", "y", "z", "v", "w", "my_field", "f2", "Foo", "foo_bar_baz", "a1_b", "u", "q", "A", "B", "E", "_x", "_y", "fooBarBaz", "myField"}
+	fieldPool = []string{"x", "y", "z", "v", "w", "my_field", "f2", "Foo", "foo_bar_baz", "a1_b", "u", "q", "A", "B", "E", "_x", "_y", "fooBarBaz", "myField", "myfield"}
 	svcPool   = []string{"S", "T"}
 )
 
@@ -137,6 +137,10 @@ func (b *builder) takeName(scopeKey string, pool []string, label string) (string
 		return "", false
 	}
 	n := pick(b, free, label)
+	// multi-letter, mixed-case names are what case-sensitivity rules hinge on: give them extra weight
+	if !used["MyField"] && len(pool) > 0 && pool[0] == msgPool[0] && b.pct(20, "mixedcase") {
+		n = "MyField"
+	}
 	used[n] = true
 	return n, true
 }
@@ -452,6 +456,30 @@ func (b *builder) fields(f *File, m *Message) {
 			oneofLeft = rapid.IntRange(0, 2).Draw(t, "oneoflen")
 		}
 		b.fieldType(f, m, fl, ctx, false)
+		if f.Syntax == Ed2023 && fl.Type == "message" && strings.HasPrefix(fl.TypeFQN, m.FQN+".") && !strings.Contains(fl.TypeFQN[len(m.FQN)+1:], ".") && b.pct(40, "grouplike") {
+			// a field named like its (same-scope) message type: exactly lower-cased it "looks like a group"
+			// when DELIMITED; a mere case-insensitive match (myField / MyField) must not
+			simple := fl.TypeFQN[len(m.FQN)+1:]
+			cand := pick(b, []string{strings.ToLower(simple), strings.ToLower(simple[:1]) + simple[1:]}, "grouplikename")
+			if !names[cand] && !jsonNames[JSONName(cand)] && cand != simple {
+				delete(names, fl.Name)
+				fl.Name = cand
+				names[cand] = true
+				jsonNames[JSONName(cand)] = true
+				if fl.JSONName != "" {
+					fl.JSONName = "json_" + cand
+				}
+				hasEnc := false
+				for _, o := range fl.Features {
+					hasEnc = hasEnc || o.Name == "features.message_encoding"
+				}
+				if !hasEnc && !b.cfg.NoFeatures && fl.Label != "repeated" || (!hasEnc && !b.cfg.NoFeatures && b.pct(50, "grouplikerep")) {
+					if b.pct(70, "grouplikedelim") {
+						fl.Features = append(fl.Features, Opt{Name: "features.message_encoding", Value: "DELIMITED", Set: func(o any) { featureSet(o).MessageEncoding = descriptorpb.FeatureSet_DELIMITED.Enum() }})
+					}
+				}
+			}
+		}
 		fl.Options = append(fl.Options, b.addCustom(f, "field", m.FQN+"."+fl.Name)...)
 		m.Fields = append(m.Fields, fl)
 	}
@@ -624,6 +652,16 @@ func (b *builder) fieldType(f *File, m *Message, fl *Field, ctx *fileCtx, isExt 
 		if repeated && packable(fl.Type) && f.Syntax != Ed2023 && b.pct(30, "packed") {
 			v := b.pct(70, "packedval")
 			fl.Options = append(fl.Options, Opt{Name: "packed", Value: fmt.Sprint(v), Set: setOpt(func(o *descriptorpb.FieldOptions) { o.Packed = proto.Bool(v) })})
+		}
+		if b.pct(8, "ftargets") {
+			// a repeated standard option, set by two separate entries
+			fl.Options = append(fl.Options,
+				Opt{Name: "targets", Value: "TARGET_TYPE_FIELD", Set: setOpt(func(o *descriptorpb.FieldOptions) {
+					o.Targets = append(o.Targets, descriptorpb.FieldOptions_TARGET_TYPE_FIELD)
+				})},
+				Opt{Name: "targets", Value: "TARGET_TYPE_FILE", Set: setOpt(func(o *descriptorpb.FieldOptions) {
+					o.Targets = append(o.Targets, descriptorpb.FieldOptions_TARGET_TYPE_FILE)
+				})})
 		}
 		if b.pct(8, "fdeprecated") {
 			fl.Options = append(fl.Options, Opt{Name: "deprecated", Value: "true", Set: setOpt(func(o *descriptorpb.FieldOptions) { o.Deprecated = proto.Bool(true) })})
